@@ -439,12 +439,10 @@ xml_print_term(struct xmlpr_ctx *pctx, const struct lyd_node_term *node)
     /* print node opening */
     xml_print_node_open(pctx, &node->node);
 
-    /* print namespaces connected with the values's prefixes */
+    /* print namespaces connected with the values's prefixes, unless they are in scope already */
     for (i = 1; i < ns_list.count; ++i) {
         mod = ns_list.objs[i];
-        ly_print_(pctx->out, " xmlns:%s=\"", mod->prefix);
-        lyxml_dump_text(pctx->out, mod->ns, 1);
-        ly_print_(pctx->out, "\"");
+        xml_print_ns(pctx, mod->ns, mod->prefix, LYXML_PREFIX_REQUIRED);
     }
 
     if (!value[0]) {
